@@ -81,6 +81,7 @@ func main() {
 		}
 	}
 	evidenceDirOverride = *evdir
+	gVerifDir = *verif
 	seed, _ := strconv.Atoi(os.Getenv("VERIF_SEED"))
 	if *prop == "all" {
 		// self-test convenience: one load, every registered property
